@@ -157,6 +157,14 @@ def run_case(case, ctx):
                     continue
                 first_is_F = "vs fractional" in what or "list" in what
                 check_val(ctx, "value-mixed-dtype", ctx.call(_p.heat, a1, a2, sigma=sigma), F if first_is_F else Gh, Gh if first_is_F else F, sigma, what)
+            # integer-typed arrays: large values (squares beyond the integer range) and unsigned dtypes
+            # (differences wrap around) must give the value of the equal float diagrams
+            for dt, kk in ((np.int64, 4 * 10 ** 9), (np.int32, 50000), (np.int16, 200), (np.uint8, 60), (np.uint16, 1)):
+                Fi = (np.array(F, dtype=np.int64).reshape(-1, 2) * kk).astype(dt)
+                Gi = (np.array(G, dtype=np.int64).reshape(-1, 2) * kk).astype(dt)
+                Ff, Gf = Fi.astype(float).tolist(), Gi.astype(float).tolist()
+                sg = sigma * float(kk) ** 2
+                check_val(ctx, "value-int-dtype", ctx.call(_p.heat, Fi, Gi, sigma=sg), Ff, Gf, sg, "%s arrays x %d" % (np.dtype(dt), kk))
             # scaling points by a and sigma by a^2 scales the distance by 1/a
             for a in (0.1, 1e3):
                 F4, G4 = aff(F, a, 0.0), aff(G, a, 0.0)
